@@ -247,13 +247,14 @@ def run(ctx: Ctx) -> int:
                     ctx.count("oracle-position")
                     ctx.nontrivial(("pos", nr, nc, r, c, method))
                     n_pos += 1
-    big_positions = [(255, 2), (256, 2), (257, 2), (2, 255), (2, 256), (2, 257), (3, 998), (3, 999), (3, 1000), (3, 1001), (-1, 999), (5, -1)]
+    big_positions = [(255, 2), (256, 2), (257, 2), (2, 255), (2, 256), (2, 257), (3, 998), (3, 999), (3, 1000), (3, 1001), (-1, 999), (5, -1),
+                     (7, 1000), (9, 1001), (6, -1), (-2, 7)]   # one coordinate would grow the table, the other is refused
     if not ctx.quick:
         big_positions += [(999998, 0), (999999, 0), (1000000, 0), (1000001, 0)]
     else:
         big_positions += [(1000000, 0), (1000001, 1)]
     for (r, c) in big_positions:
-        for method in ("cell", "write"):
+        for method in ("cell", "write", "set_cell_style", "set_cell_border"):
             oracle_position(ctx, (4, 3), r, c, method, style=1)
             ctx.count("oracle-position")
             ctx.nontrivial(("pos", 4, 3, r, c, method))
